@@ -1,0 +1,54 @@
+//go:build verif
+
+package tally
+
+// Hooks for the verification harness (/verif). Compiled only with
+// `-tags verif`; nothing here is reachable from a normal build.
+
+import (
+	"io"
+	"sync/atomic"
+	"time"
+)
+
+var verifYieldHook atomic.Value // of func(int)
+
+// verifYield hands control to the installed schedule controller, if any.
+// Points: 1,2 counter.value; 11 gauge.Update; 21 gauge.report; 22 gauge.cachedReport.
+func verifYield(point int) {
+	if f, _ := verifYieldHook.Load().(func(int)); f != nil {
+		f(point)
+	}
+}
+
+// VerifSetYield installs (or, with nil, removes) the yield callback.
+func VerifSetYield(f func(int)) { verifYieldHook.Store(f) }
+
+// VerifNewRootScope is NewRootScope with a chosen registry shard count
+// (0 = GOMAXPROCS, as in production).
+func VerifNewRootScope(opts ScopeOptions, interval time.Duration, shards uint) (Scope, io.Closer) {
+	opts.registryShardCount = shards
+	s := newRootScope(opts, interval)
+	return s, s
+}
+
+// VerifNewTestScope is NewTestScope with a chosen registry shard count.
+func VerifNewTestScope(prefix string, tags map[string]string, shards uint) TestScope {
+	return newRootScope(ScopeOptions{Prefix: prefix, Tags: tags, testScope: true, registryShardCount: shards}, 0)
+}
+
+// VerifReportOnce runs one periodic report pass: exactly what the ticker
+// loop calls on every tick.
+func VerifReportOnce(s Scope) {
+	if ss, ok := s.(*scope); ok {
+		ss.reportLoopRun()
+	}
+}
+
+// VerifSetNow replaces the clock used by stopwatches; the returned function
+// restores the previous one.
+func VerifSetNow(now func() time.Time) (restore func()) {
+	prev := globalNow
+	globalNow = now
+	return func() { globalNow = prev }
+}
